@@ -366,11 +366,12 @@ func (db *DB) Close() error {
 
 // Sync 数据持久化
 func (db *DB) Sync() error {
+	db.mu.Lock()
+	defer db.mu.Unlock()
+	// 活跃文件可能被并发写入更新, 需在持有锁时读取
 	if db.activeFile == nil {
 		return nil
 	}
-	db.mu.Lock()
-	defer db.mu.Unlock()
 
 	// 仅持久化当前活跃文件
 	return db.activeFile.Sync()
